@@ -51,6 +51,25 @@ fn mirror(g: &G) -> G {
     }
 }
 
+/// reverse the order of every alternative (the parts of words stay in place): another spelling
+/// of the same language
+fn permute_alts(g: &G) -> G {
+    match g {
+        G::Alt(v) => {
+            let mut w: Vec<G> = v.iter().map(permute_alts).collect();
+            w.reverse();
+            G::Alt(w)
+        }
+        G::Sub(v) => G::Sub(v.iter().map(permute_alts).collect()),
+        G::Seq(v) => G::Seq(v.iter().map(permute_alts).collect()),
+        G::Fb(v) => G::Fb(v.iter().map(permute_alts).collect()),
+        G::Opt(x) => G::Opt(Box::new(permute_alts(x))),
+        G::Many(x) => G::Many(Box::new(permute_alts(x))),
+        G::Dd(x, d) => G::Dd(Box::new(permute_alts(x)), d.clone()),
+        other => other.clone(),
+    }
+}
+
 pub fn wrap(g: &G) -> Grammar {
     let mut stmts = vec![Stmt::Call("cmd".into(), g.clone())];
     stmts.extend(env_defs());
@@ -77,6 +96,8 @@ pub fn corpus(thorough: bool, seed: u64) -> Vec<Grammar> {
         G::Fb(vec![lit("foo"), G::Sub(vec![lit("--x="), nt("Y")])]),
         G::Seq(vec![G::Sub(vec![lit("--a="), G::Alt(vec![lit("b"), lit("c")])]), G::Alt(vec![lit("x"), lit("y")])]),
         G::Alt(vec![G::Sub(vec![lit("--a="), G::Alt(vec![lit("b"), lit("c")])]), G::Sub(vec![lit("--a="), G::Alt(vec![lit("c"), lit("b")])])]),
+        G::Alt(vec![G::Seq(vec![G::Sub(vec![lit("--a="), G::Alt(vec![lit("b"), lit("c")])]), lit("f")]), G::Seq(vec![G::Sub(vec![lit("--a="), G::Alt(vec![lit("c"), lit("b")])]), lit("g")])]),
+        G::Alt(vec![G::Seq(vec![G::Sub(vec![lit("--a="), G::Alt(vec![lit("b"), lit("c")])]), lit("f")]), G::Seq(vec![G::Sub(vec![lit("--a="), G::Alt(vec![lit("b"), lit("c")])]), lit("g")])]),
         G::Many(Box::new(G::Alt(vec![lit("a"), G::Seq(vec![lit("b"), lit("c")])]))),
         G::Seq(vec![G::Many(Box::new(lit("a"))), lit("a")]),
         G::Dd(Box::new(G::Alt(vec![G::Sub(vec![lit("--color="), nt("U")]), G::Seq(vec![lit("--color"), nt("U")])])), "dd".into()),
@@ -98,10 +119,24 @@ pub fn corpus(thorough: bool, seed: u64) -> Vec<Grammar> {
     for w in &words {
         let m = mirror(w);
         if &m != w {
-            out.push(wrap(&G::Alt(vec![G::Seq(vec![lit("x"), w.clone()]), G::Seq(vec![lit("y"), m])])));
+            out.push(wrap(&G::Alt(vec![G::Seq(vec![lit("x"), w.clone()]), G::Seq(vec![lit("y"), m.clone()])])));
         }
         out.push(wrap(&G::Fb(vec![w.clone(), G::Seq(vec![lit("e"), w.clone()])])));
+        // the same word expression written twice at one point with different continuations,
+        // and next to a differently spelled expression of the same pieces
+        out.push(wrap(&G::Alt(vec![G::Seq(vec![w.clone(), lit("f")]), G::Seq(vec![w.clone(), lit("g")])])));
+        if &m != w {
+            out.push(wrap(&G::Alt(vec![G::Seq(vec![w.clone(), lit("f")]), G::Seq(vec![m.clone(), lit("g")])])));
+        }
+        let pa = permute_alts(w);
+        if &pa != w {
+            out.push(wrap(&G::Alt(vec![G::Seq(vec![w.clone(), lit("f")]), G::Seq(vec![pa, lit("g")])])));
+        }
     }
+    // the same literal with an explicitly empty description / without one / with one
+    out.push(wrap(&G::Alt(vec![G::Seq(vec![litd("a", ""), lit("f")]), G::Seq(vec![lit("a"), lit("g")])])));
+    out.push(wrap(&G::Alt(vec![G::Seq(vec![litd("a", ""), lit("f")]), G::Seq(vec![litd("a", ""), lit("g")])])));
+    out.push(wrap(&G::Seq(vec![G::Opt(Box::new(litd("a", "x"))), G::Alt(vec![litd("a", "x"), lit("b")])])));
     for n in ["X", "Y", "A1", "O", "PATH", "U", "SP"] {
         // first as a whole word, later inside a word (and the other way round)
         out.push(wrap(&G::Seq(vec![G::Opt(Box::new(nt(n))), G::Sub(vec![lit("--m="), nt(n)])])));
@@ -223,7 +258,7 @@ pub fn check_one(gr: Option<&Grammar>, text: &str, shell: &str, out: &mut Vec<Vi
     }
 
     // ---- C09: no state with two readings of one word leading to different continuations
-    c09_determinism(&min_nfa, &min_read, &nfa_nolevels(&comp.min), "main", text, shell, out);
+    c09_determinism(&min_nfa, &min_read, &nfa_nolevels(&comp.min), "main", text, shell, gr.map_or(false, |g| has_respelled_word(g, shell)), out);
 
     // ---- C09: `||` behaves exactly like `|` when matching
     if let Some(gr) = gr {
@@ -288,7 +323,7 @@ fn c03_min_only(min: &complgen::dfa::DFA, which: &str, text: &str, shell: &str, 
     }
 }
 
-fn c09_determinism(n: &Nfa, readings: &Nfa, nolevels: &Nfa, which: &str, text: &str, shell: &str, out: &mut Vec<Violation>) {
+fn c09_determinism(n: &Nfa, readings: &Nfa, nolevels: &Nfa, which: &str, text: &str, shell: &str, respelled: bool, out: &mut Vec<Violation>) {
     // `n` (labelled items) and `readings` (items as read when matching) have identical shape
     for (s, row) in n.trans.iter().enumerate() {
         let mut by: BTreeMap<String, BTreeSet<usize>> = BTreeMap::new();
@@ -308,7 +343,16 @@ fn c09_determinism(n: &Nfa, readings: &Nfa, nolevels: &Nfa, which: &str, text: &
                     if descrs.len() > 1 { "same-literal-different-description" } else { "same-literal-different-fallback-level" }
                 } else if r.starts_with("W:") {
                     // identical once the `||` levels are erased = the same expression used at two levels
-                    if flat[&r].len() > 1 { "same-within-word-language-different-spelling" } else { "same-within-word-expression-different-fallback-level" }
+                    let full: BTreeSet<&String> = names[&r].iter().collect();
+                    if full.len() == 1 {
+                        // even the labelled languages are identical: one expression spelled in two ways
+                        // (e.g. permuted alternatives) is interned as two automata
+                        if respelled { "identical-within-word-language-spelled-differently-two-symbols" } else { "identical-within-word-expression-two-symbols" }
+                    } else if flat[&r].len() > 1 {
+                        "same-within-word-language-different-labels"
+                    } else {
+                        "same-within-word-expression-different-fallback-level"
+                    }
                 } else {
                     "same-command-different-fallback-level"
                 };
